@@ -303,6 +303,41 @@ def oracle_plane(R=30, C=40, negate=False, planes=0):
     return False, None, None
 
 
+def oracle_large(negate=False, R=1100, C=1000):
+    """a plane of more than 2**20 pixels (any block-wise or chunked processing has to cover every row and column); the expected
+    mask comes from astropy's WCS and healpy alone"""
+    from astropy.io import fits
+    from astropy.wcs import WCS
+    import healpy as hp
+    mim = loader.real('MIMAS')
+    regions = loader.real('regions')
+    hdr = fits.Header()
+    hdr['CTYPE1'], hdr['CTYPE2'] = 'RA---SIN', 'DEC--SIN'
+    hdr['CRVAL1'], hdr['CRVAL2'] = 200.0, 20.0
+    hdr['CRPIX1'], hdr['CRPIX2'] = C / 2.0, R / 2.0
+    hdr['CDELT1'], hdr['CDELT2'] = -1.0 / 600, 1.0 / 600
+    wcs = WCS(hdr, naxis=2)
+    D = 11
+    reg = regions.Region(maxdepth=D)
+    reg.add_circles(real_np.radians(200.0), real_np.radians(20.0), real_np.radians(0.9 * min(R, C) / 600.0))
+    reg.add_circles(real_np.radians(200.0 + 0.45 * C / 600.0), real_np.radians(20.0 + 0.45 * R / 600.0), real_np.radians(0.3))
+    stored = real_np.array(sorted(int(p) for p in reg.get_demoted()))
+    data = real_np.ones((R, C), dtype=real_np.float32)
+    out = mim.mask_plane(data.copy(), wcs, reg, negate=negate)
+    jj, ii = real_np.meshgrid(real_np.arange(C), real_np.arange(R))
+    sky = wcs.all_pix2world(real_np.column_stack([jj.ravel(), ii.ravel()]), 0)
+    pix = hp.ang2pix(2 ** D, real_np.radians(90 - sky[:, 1]), real_np.radians(sky[:, 0]), nest=True)
+    inside = real_np.isin(pix, stored).reshape(R, C)
+    want_blank = inside if negate else ~inside
+    got_blank = ~real_np.isfinite(out)
+    diff = want_blank != got_blank
+    nbad = int(diff.sum())
+    if nbad:
+        rows = sorted(set(real_np.nonzero(diff)[0].tolist()))
+        return True, 'large-plane', '%d of %d pixels masked differently from the per-pixel-centre oracle (%dx%d SIN image, negate=%s); rows affected: %s%s' % (nbad, R * C, R, C, negate, rows[:6], '...' if len(rows) > 6 else '')
+    return False, None, None
+
+
 def oracle_fine(negate=False, N=120):
     """regions and depths finer than the pixel grid, pixels far below an arcsecond: 0.05 arcsec pixels against explicit
     depth-18 cells (0.8 arcsec); the oracle takes each pixel centre through astropy (float64) and healpy ang2pix"""
@@ -396,6 +431,18 @@ def oracle_table(negate=False):
     got = list(out['id'])
     if got != want:
         return True, 'table-rows', 'rows kept %s expected %s (negate=%s)' % (got, want, negate)
+    # coordinates that are undefined because the column entry is masked (e.g. after a left join): the value hidden under the
+    # mask lies inside the region, the row has no position
+    tm = Table({'myra': ra.copy(), 'mydec': dec.copy(), 'id': real_np.arange(6)}, masked=True)
+    tm['myra'].mask = [False, True, False, False, False, False]
+    tm['mydec'].mask = [True, False, False, False, False, False]
+    out = mim.mask_table(reg, tm, negate=negate, racol='myra', deccol='mydec')
+    defined = real_np.array([False, False, True, True, True, True])
+    keepm = (inside & defined) if negate else ~(inside & defined)
+    want = [int(v) for v in real_np.arange(6)[keepm]]
+    got = [int(v) for v in out['id']]
+    if got != want:
+        return True, 'table-masked-coordinates', 'table with masked coordinates: rows kept %s expected %s (negate=%s); rows 0 and 1 have a masked dec / ra whose hidden value is inside the region' % (got, want, negate)
     return False, None, None
 
 
@@ -463,7 +510,7 @@ def run(rep):
     rep.end_kernel()
     # executor validation / property-level runs on the real code
     for neg in (False, True):
-        for fn, kind, k in ((oracle_plane, 'plane', 'K-mask_plane'), (oracle_table, 'table', 'K-mask_table'), (oracle_file, 'file', 'K-mask_file'), (oracle_fine, 'fine', 'K-mask_plane')):
+        for fn, kind, k in ((oracle_plane, 'plane', 'K-mask_plane'), (oracle_table, 'table', 'K-mask_table'), (oracle_file, 'file', 'K-mask_file'), (oracle_fine, 'fine', 'K-mask_plane'), (oracle_large, 'large', 'K-mask_plane')):
             bad, cls, detail = fn(negate=neg)
             rep.validated_runs(1)
             if bad:
@@ -479,7 +526,7 @@ def replay(w):
         bad, cls, detail = C08.replay_case(w['witness'])
         return bad, '%s: %s' % (cls, detail)
     wit = w['witness']
-    fn = {'plane': oracle_plane, 'file': oracle_file, 'fine': oracle_fine}.get(wit.get('kind'), oracle_table)
+    fn = {'plane': oracle_plane, 'file': oracle_file, 'fine': oracle_fine, 'large': oracle_large}.get(wit.get('kind'), oracle_table)
     bad, cls, detail = fn(negate=bool(wit.get('negate')))
     return bad, '%s: %s' % (cls, detail)
 
